@@ -92,7 +92,9 @@ int parse_limbs(const char *s, mp_ptr p, mp_size_t n)
 void parse_z(const char *s, mpz_ptr z)
 {
   mp_size_t n = hex_limbs(s);
-  mpz_init2(z, (n > 0 ? n : 1) * GMP_NUMB_BITS);
+  /* exactly as many limbs as the value needs (mpz_init2 would add a spare one): an operation that must grow the
+     object then really reallocates, and a pointer kept across that realloc reads the poisoned old block */
+  mpz_init(z); _mpz_realloc(z, n > 0 ? n : 1);
   int neg = parse_limbs(s, PTR(z), n);
   while (n > 0 && PTR(z)[n-1] == 0) n--;
   SIZ(z) = neg ? -n : n;
@@ -171,7 +173,7 @@ static void rec_free_u(void *p, size_t n)
   if (b->size != n) alloc_errors++;
   if (!rz_ok(b)) alloc_errors++;
   unlink_blk(b);
-  memset(user(b), 0xDD, b->size);
+  memset(user(b), 0xDD, b->size); __asm__ __volatile__("" : : "r"(user(b)) : "memory");   /* keep the poison: the compiler drops stores to a block that is freed next */
   free(b);
 }
 static void *rec_realloc_u(void *p, size_t old, size_t new_)
@@ -187,7 +189,7 @@ static void *rec_realloc_u(void *p, size_t old, size_t new_)
   alloc_trace = t;
   memcpy(q, p, b->size < new_ ? b->size : new_);
   unlink_blk(b);
-  memset(user(b), 0xDD, b->size);
+  memset(user(b), 0xDD, b->size); __asm__ __volatile__("" : : "r"(user(b)) : "memory");   /* keep the poison: the compiler drops stores to a block that is freed next */
   free(b);
   return q;
 }
